@@ -447,6 +447,9 @@ func (w *writer) Close() error {
 		if err := w.processRow(w.tempBuffer[:w.params.bytesPerRow()]); err != nil {
 			return err
 		}
+		// the partial row is written once only: a second Close must not send
+		// it to the underlying writer again, which is closed by then
+		w.tempLen = 0
 	}
 
 	return w.w.Close()
